@@ -7,6 +7,7 @@ import (
 	"io"
 	"iter"
 	"log/slog"
+	"math"
 	"math/rand"
 	"slices"
 	"sort"
@@ -1178,6 +1179,9 @@ func (gs *GossipSubRouter) handleGraft(p peer.ID, ctl *pb.ControlMessage) []*pb.
 	return cprune
 }
 
+// maxPruneBackoffSeconds is the longest backoff period, in seconds, that fits a time.Duration.
+const maxPruneBackoffSeconds = uint64(math.MaxInt64 / int64(time.Second))
+
 func (gs *GossipSubRouter) handlePrune(p peer.ID, ctl *pb.ControlMessage) {
 	score := gs.score.Score(p)
 
@@ -1197,6 +1201,10 @@ func (gs *GossipSubRouter) handlePrune(p peer.ID, ctl *pb.ControlMessage) {
 		// is there a backoff specified by the peer? if so obey it.
 		backoff := prune.GetBackoff()
 		if backoff > 0 {
+			// the period is chosen by the peer; keep it inside what a Duration can hold
+			if backoff > maxPruneBackoffSeconds {
+				backoff = maxPruneBackoffSeconds
+			}
 			gs.doAddBackoff(p, topic, time.Duration(backoff)*time.Second)
 		} else {
 			gs.addBackoff(p, topic, false)
